@@ -174,6 +174,17 @@ FinishStruct(S, d, acc) ==
           ELSE IF d.kind = "union" /\ nset # 1 THEN Bad
           ELSE [k |-> "struct", f |-> Collect(1)]
 
+\* A map with hashable keys is a Go map: a key that arrives twice keeps the last pair (doubles: +0 and -0 are one key,
+\* a NaN is equal to nothing); other key types are kept as a list of pairs, duplicates included.
+GoMapKey(S, t) == LET r == Root(S, t) IN
+                  r.k \in {"bool", "i8", "i16", "i32", "i64", "double", "string"} \/ (r.k = "ref" /\ Def(S, r.n).kind = "enum")
+DblNaN(q) == (q[1] % 32768) >= 32752 /\ ((q[1] % 16) # 0 \/ q[2] # 0 \/ q[3] # 0 \/ q[4] # 0)
+DblZero(q) == (q[1] % 32768) = 0 /\ q[2] = 0 /\ q[3] = 0 /\ q[4] = 0
+SameGoKey(a, b) == IF a.k = "dbl" THEN ~DblNaN(a.l) /\ ~DblNaN(b.l) /\ (a.l = b.l \/ (DblZero(a.l) /\ DblZero(b.l))) ELSE a = b
+RECURSIVE KeepLast(_, _)
+KeepLast(ms, i) == IF i > Len(ms) THEN << >>
+                   ELSE (IF \E j \in (i + 1)..Len(ms) : SameGoKey(ms[j].k, ms[i].k) THEN << >> ELSE << ms[i] >>) \o KeepLast(ms, i + 1)
+
 FromWireRef(S, t, w) ==
   LET r == Root(S, t) IN
   CASE r.k \in {"bool", "i8", "i16", "i32"} -> [k |-> "int", n |-> w.n]
@@ -185,7 +196,8 @@ FromWireRef(S, t, w) ==
     [] r.k = "set"  -> IF w.et # TypeCode(S, r.e) THEN NilC("set")
                        ELSE LET es == SeqFromWire(S, r.e, w.e) IN IF IsBadSeq(es) THEN Bad ELSE [k |-> "set", e |-> es]
     [] r.k = "map"  -> IF w.kt # TypeCode(S, r.kt) \/ w.vt # TypeCode(S, r.vt) THEN NilC("map")
-                       ELSE LET ms == PairsFromWire(S, r.kt, r.vt, w.m) IN IF IsBadSeq(ms) THEN Bad ELSE [k |-> "map", m |-> ms]
+                       ELSE LET ms == PairsFromWire(S, r.kt, r.vt, w.m) IN
+                            IF IsBadSeq(ms) THEN Bad ELSE [k |-> "map", m |-> IF GoMapKey(S, r.kt) THEN KeepLast(ms, 1) ELSE ms]
     [] r.k = "ref" ->
          IF Def(S, r.n).kind = "enum" THEN [k |-> "int", n |-> w.n]
          ELSE LET d == Def(S, r.n)
